@@ -25,7 +25,7 @@ struct Run : ContBase {
     qlist_t *inner() { return kind == 0 ? l : kind == 1 ? q->list : kind == 2 ? st->list : g->list; }
     size_t datasum() { size_t t = 0; for (auto &e : m) t += e.size(); return t; }
     std::string gen_elem(bool str) {
-        std::string v = gen_val(str, 64);
+        std::string v = gen_val(str, 64);      // (gen_val itself produces an occasional element around 128..4096 bytes)
         if (!str && s.chance(1, 4)) v.back() = '\0';      // trailing NUL matters for tostring
         return v;
     }
